@@ -34,3 +34,32 @@ open MdIt.BlockH.C16
 #print axioms tokLoopG_succ
 #print axioms reach_quote_called
 #print axioms frameTrace_reach
+
+-- second session (appended)
+#check @lazyScan_false_of_true
+#check @lheading_declines_at_sweep_stop
+#check @reference_ok
+#check @reference_end_is_real_start
+#check @lheading_end_is_real_start
+#check @runRuleH_silent_congr2
+#check @listLoop_exit
+#check @listRule_ok
+#check @list_end_is_real_start
+#check @list_end_is_real_start_shipped
+#check @custom_rule_after_list
+#check @engH_ok2
+#check @engX_ok2
+
+#print axioms lazyScan_false_of_true
+#print axioms lheading_declines_at_sweep_stop
+#print axioms reference_ok
+#print axioms reference_end_is_real_start
+#print axioms lheading_end_is_real_start
+#print axioms runRuleH_silent_congr2
+#print axioms listLoop_exit
+#print axioms listRule_ok
+#print axioms list_end_is_real_start
+#print axioms list_end_is_real_start_shipped
+#print axioms custom_rule_after_list
+#print axioms engH_ok2
+#print axioms engX_ok2
